@@ -7,7 +7,7 @@
 (*   C15 AnsiSetting.valid / .parsable                                     *)
 (* Events of these operations do not touch the heap.                       *)
 (***************************************************************************)
-EXTENDS AnsiValue
+EXTENDS AnsiSegs
 
 IsSubseq(a, b) ==      \* a is a (not necessarily contiguous) subsequence of b
   LET RECURSIVE Sub(_, _)
